@@ -415,6 +415,43 @@ def rule_r5(ctx):
     return rr
 
 
+def rule_r6(ctx):
+    """An elif chain is an If whose orelse is [If] ... N deep.  The if_expr style turns it into
+    `a if t else b if u else ...` (the else slot of a conditional expression needs no parentheses:
+    C17-R4).  The short_circuit style puts the lowered else block into the last operand of an `or`;
+    a one-statement block is handed back as that statement's own expression, so every elif nests an
+    `or` inside an `or`, which BOTH unparsers must parenthesise to keep the tree: N elifs become N
+    nested parentheses (about 200 are accepted)."""
+    from ..vals import PList
+
+    rr = RuleResult("C17-R6", "the short_circuit if template does not nest one `or` per elif")
+    rr.floor = 1
+    entry = ctx.tmpl.pending_by_kind("If")
+    reported = False
+    for pr in entry.ok_paths():
+        for t in iter_tnodes(pr.result):
+            if t.kind != "BoolOp" or not (isinstance(t.fields.get("op"), TNode) and t.fields["op"].kind == "Or"):
+                continue
+            vals = t.fields.get("values")
+            items = vals.items if isinstance(vals, PList) else []
+            rr.instances += 1
+            last = items[-1] if items else None
+            if isinstance(last, TNode) and last.kind == "$Wrap" and any(e.kind == "S" and (e.path or "").startswith("If.orelse") for e in events_of(last)[0]):
+                if not reported:
+                    reported = True
+                    rr.fail(
+                        "C17-R6|If|orelse|or-nested-per-elif",
+                        f"PendingIf.get_result ({t.site}): with if_style=short_circuit the lowered else block is the last operand of `... or <else>`; for an elif it is itself such an `or`, so a chain of N elifs is N nested `or`s and N nested parentheses in the text: from about 200 elifs on the result does not compile (`MemoryError: Parser stack overflowed` / `too many nested parentheses`), while if_expr handles 1000",
+                        where=str(t.site), what="If|orelse|or-nesting",
+                    )
+            else:
+                rr.ok("If|or-operand")
+    if rr.instances == 0:
+        rr.instances = 1
+        rr.ok("no `or` template")
+    return rr
+
+
 def rule_c05ib(ctx):
     """A block nests one guard per INTERRUPT seen so far, not one per statement: that is what the
     strict comparison against a refreshed saved counter in _iter_branch guarantees (shared rule
@@ -424,4 +461,4 @@ def rule_c05ib(ctx):
     return rule_ib(ctx)
 
 
-RULES = [("C17-R4", rule_r4), ("C17-R1", rule_r1), ("C17-R2", rule_r2), ("C17-R3", rule_r3), ("C17-R5", rule_r5), ("C05-IB", rule_c05ib)]
+RULES = [("C17-R4", rule_r4), ("C17-R1", rule_r1), ("C17-R2", rule_r2), ("C17-R3", rule_r3), ("C17-R5", rule_r5), ("C17-R6", rule_r6), ("C05-IB", rule_c05ib)]
